@@ -12,7 +12,7 @@
 (*                                                                                            *)
 (* Source text is ASCII: the middle dot U+00B7 (hydrate separator) is written "~" in txt;     *)
 (* the harness substitutes it when it hands the string to the code.                           *)
-EXTENDS Integers, Sequences, FiniteSets, FiniteSetsExt, TLC, Json, SequencesExt, Rational, BigNat, Periodic
+EXTENDS Integers, Sequences, FiniteSets, FiniteSetsExt, TLC, Json, SequencesExt, Rational, BigNat, Periodic, Mass
 
 CONSTANTS
     Elems,        \* atomic numbers atoms are drawn from
@@ -303,21 +303,7 @@ PhaseIdx(sfx, phases) == IF \E i \in 1..Len(phases) : phases[i] = sfx
                          THEN CHOOSE i \in 1..Len(phases) : phases[i] = sfx ELSE 0
 
 ------------------------------------------------------------------------------
-(* molar mass (C14): sum of count x standard atomic weight minus charge x electron mass,    *)
-(* exactly, as a big natural over the denominator MassDen * 10^9                            *)
-W9(z) == BAdd(BMulSmall(BMulSmall(BMulSmall(BFromInt(WInt[z]), 10000), 10000), 10), BFromInt(WFrac9[z]))
-RECURSIVE LCMSet(_)
-LCMSet(S) == IF S = {} THEN 1 ELSE LET x == CHOOSE y \in S : TRUE IN LCM(x, LCMSet(S \ {x}))
-MassDenOf(f) == LCMSet({ f[z][2] : z \in DOMAIN f })
-BSumSet(S, f(_)) == FoldSet(LAMBDA x, acc : BAdd(f(x), acc), <<>>, S)
-\* numerator of mass * MassDen * 10^9 for composition f and charge q
-MassNumOf(f, q) ==
-    LET D == MassDenOf(f)
-        term(z) == BMul(W9(z), BFromInt(f[z][1] * (D \div f[z][2])))
-        pos == BSumSet(DOMAIN f, term)
-        el == BMulSmall(BFromInt(ElectronFrac9), Abs(q) * D)
-    IN  IF q >= 0 THEN BSub(pos, el) ELSE BAdd(pos, el)
-
+(* molar mass (C14): see Mass.tla - MassNumOf(comp, q), MassDenOf(comp) *)
 ------------------------------------------------------------------------------
 (* case export *)
 HasDec == \E p \in 1..Len(toks) : toks[p].k \in {"atom", "close"} /\ toks[p].c.fd > 0
